@@ -212,6 +212,10 @@ def run(case, rec):
             rec.evaluated(nontrivial=True)
             return
         bad = finite_droplets(call.result)
+        if o.get("interface_width") is not None or o["refine"]:
+            # the width was supplied (or fitted), so it is not "unset": it has to be a finite number
+            bad += [str(d) for d in call.result
+                    if "interface_width" in (d.data.dtype.names or ()) and not np.isfinite(float(d.data["interface_width"]))]
         rec.check(not bad, "finite", f"non-finite droplet parameters {bad[:2]}; {label}")
         rec.evaluated(nontrivial=len(call.result) >= 1)
         if len(call.result) >= 1 and o["refine"]:
